@@ -803,7 +803,15 @@ def run_cfg_after_r10(ctx, p, cfg):
             fs = [c for c in f.calls() if (c.callee or "").startswith("std::fs::")]
             r.require(len(fs) == 1 and fs[0].callee == "std::fs::remove_file" and deep_strip(fs[0].arg(0)) == ("param", 2), "removes-the-file", fn=f, detail="fs calls: %s" % [c.callee for c in fs])
             ret = f.local_expr(0)
-            r.require(any(x[0] == "call" and x[1] == "std::fs::remove_file" for x in walk(ret)) and ret[0] == "call", "returns-its-result", fn=f, detail=show(ret, 4))
+            direct = any(x[0] == "call" and x[1] == "std::fs::remove_file" for x in walk(ret)) and ret[0] == "call"
+            # `match remove_file(file) { Ok(()) => Ok(()), Err(e) => Err(e.into()) }` / `remove_file(file)?; Ok(())`: Ok is returned on the removal's success edge only
+            rets_ = q.ret_assignments(f)
+            matched = len(fs) == 1 and common.result_is_checked(f, fs[0], strict=True) and bool(rets_) and all(
+                any(x[0] == "call" and x[1] == "std::fs::remove_file" for x in walk(e)) or (q.classify_ret(e) == "ok" and any(
+                    any(x[0] == "call" and x[1] == "std::fs::remove_file" for x in walk(si.discr)) and {si.label(v) for v, _ in al} <= {"Continue", "Ok"}
+                    for sb, si, al in f.conditions(b)))
+                for b, e in rets_)
+            r.require(direct or matched, "returns-its-result", fn=f, detail=show(ret, 4))
 
     with ctx.rule("R9", "panic inventory", cfg) as r:
         ents = [ROLL_IMPL] + ([DELETE_IMPL] if p.has_fn(DELETE_IMPL) else [])
